@@ -419,7 +419,9 @@ class DataFrameModel(Generic[TDataFrame, TSchema], BaseModel):
         method_names = set()
         check_infos = []
         for base in bases:
-            for attr_name, attr_value in vars(base).items():
+            # (a snapshot: another thread compiling the same model for the
+            # first time assigns class attributes meanwhile)
+            for attr_name, attr_value in list(vars(base).items()):
                 check_info = getattr(attr_value, key, None)
                 if not isinstance(check_info, CheckInfo):
                     continue
@@ -443,7 +445,9 @@ class DataFrameModel(Generic[TDataFrame, TSchema], BaseModel):
         method_names = set()
         parser_infos = []
         for base in bases:
-            for attr_name, attr_value in vars(base).items():
+            # (a snapshot: another thread compiling the same model for the
+            # first time assigns class attributes meanwhile)
+            for attr_name, attr_value in list(vars(base).items()):
                 parser_info = getattr(attr_value, key, None)
                 if not isinstance(parser_info, ParserInfo):
                     continue
